@@ -127,7 +127,7 @@ def expand(case):
         return [A, A2, A] + mid + [A, C]
     if g[0] == "stride":
         # N equal records of one type whose frame length is odd: the frame starts take every residue modulo any block size <= N,
-        # so a reader or writer working in blocks of 4 KiB .. 64 KiB (1 MiB in thorough) meets every split of prefix and body
+        # so a reader or writer working in blocks of 4 KiB .. 64 KiB (256 KiB in thorough) meets every split of prefix and body
         n = g[1]
         return [_odd_frame_spec()] * n
     if g[0] == "align":
@@ -232,7 +232,7 @@ def long_cases(tier):
             yield {"kind": "s6", "t": "bigfirst", "light": True, "gen": ["bigfirst", n, form]}
     yield {"kind": "s6", "t": "stride", "light": True, "gen": ["stride", 65536 + 9]}
     if thorough:
-        yield {"kind": "s6", "t": "stride", "light": True, "gen": ["stride", (1 << 20) + 9]}
+        yield {"kind": "s6", "t": "stride", "light": True, "gen": ["stride", (1 << 18) + 9]}
     edges = [8192, 65536] + ([4096, 16384, 131072, 1 << 20] if thorough else [])
     for e in edges:
         # a run of records whose text sizes walk over the edge one code point at a time, and the same sizes in falling order
